@@ -604,7 +604,10 @@ class ShortTimeFourierTransformFrameComputer(LinearFilterBankFrameComputer):
         total_len = (num_frames - 1) * frame_shift - pad_left + frame_length
         pad_right = max(0, total_len - len(signal))
         if pad_left or pad_right:
-            signal = np.pad(signal, (pad_left, pad_right), "symmetric")
+            signal = np.pad(signal, (max(pad_left, 0), pad_right), "symmetric")
+        if pad_left < 0:
+            # kaldi_shift with a shift longer than the frame: frames start past sample 0
+            signal = signal[-pad_left:]
         coeffs = np.zeros((num_frames, self.num_coeffs), dtype=signal.dtype)
         for frame_idx in range(num_frames):
             frame_left = frame_idx * frame_shift
